@@ -6,7 +6,7 @@ BASE = json.load(open("/root/.vp/BASELINE.json"))
 
 CLAIMED = {
  "C28": dict(engine="cellsim", design="4.3",
-   text="Seeded deterministic simulation of edit histories on a population of live Supercell objects (copies and symmetry images of one another) against an executable reference model of occ/chemorder, with rejected edits, aliasing after copy, overlay reads, eight POSCAR dialects from a stub VASP peer, malformed POSCAR reads that fail part-way, temporaries as symmetry operations and pickle/deepcopy duplicates as injected faults; a seeded share of the ops is unobserved (the oracle reads attributes but calls no method of the objects, so that it is not itself part of the history); every violation is minimised (ddmin) and replayed in a fresh interpreter. Sampling, not enumeration: a clean batch is evidence that no history of the explored shape breaks the bookkeeping, not a proof.",
+   text="Seeded deterministic simulation of edit histories on a population of live Supercell objects (copies and symmetry images of one another) against an executable reference model of occ/chemorder, with rejected edits, aliasing after copy, overlay reads, eight POSCAR dialects from a stub VASP peer, malformed POSCAR reads that fail part-way, temporaries as symmetry operations and pickle/deepcopy duplicates as injected faults, on cells of 1 to 32 sites and, rarely, 150 (thorough: 288) sites; a seeded share of the ops is unobserved (the oracle reads attributes but calls no method of the objects, so that it is not itself part of the history); every violation is minimised (ddmin) and replayed in a fresh interpreter. Sampling, not enumeration: a clean batch is evidence that no history of the explored shape breaks the bookkeeping, not a proof.",
    note="Trusted: the reference model's reading of the documented edit semantics (DESIGN 4.3); numpy; CPython. Only 3-D crystals (the class is 3-D only). Negative site indices and unresolvable positions are outside the documented input domain and are not generated.",
    technique="deterministic simulation: seeded op/fault histories vs executable reference model, ddmin + exact replay"),
  "C33": dict(engine="mcsim", design="4.4",
@@ -22,11 +22,11 @@ CLAIMED = {
    note="Trusted: the reference sampler (C33 checks it separately); numba's compilation of the class. Inputs the jit API leaves unspecified (non-swap moves) are not generated. kTlogu values within 1e-9 of a reference dE are nudged so round-off cannot flip an acceptance.",
    technique="deterministic simulation: lockstep differential execution under one seeded history with injected random stream, ddmin + exact replay"),
  "C14": dict(engine="calcsim", design="4.1",
-   text="Seeded deterministic simulation of a long-lived VacancyMediated calculator driven by a scripted caller over a pool of cache-hazard inputs, with caller-induced faults (scribbling on returned arrays and on what the auxiliary and GF-calculator queries hand out, reuse of the caller's input buffers, failing calls, foreign SetRates, a sibling calculator evaluated in between, decoy GF calculators on the same Crystal object), cache clears, in-place re-ranging, re-gridding, and restart from HDF5 images held on an in-process simulated disk. Every Lij result is compared with a reference memo filled from a pristine calculator. Sampling of histories over a catalogue of 18 crystals (2-D, multi-site, origin-state, two-Wyckoff-set, low-symmetry and NOSYM) and a pool that includes near-duplicate, doubled, tracer, large-omega2 and cold (rates ~1e-11) inputs.",
+   text="Seeded deterministic simulation of a long-lived VacancyMediated calculator driven by a scripted caller over a pool of cache-hazard inputs, with caller-induced faults (scribbling on returned arrays and on what the auxiliary and GF-calculator queries hand out, reuse of the caller's input buffers, failing calls, foreign SetRates, a sibling calculator evaluated in between, decoy GF calculators on the same Crystal object, input arrays prepared on a freshly constructed calculator, a lookalike calculator (same printed crystal, other symmetry analysis) loaded earlier and held, the caller editing the lists it handed to the constructor), cache clears, in-place re-ranging, re-gridding, and restart from HDF5 images held on an in-process simulated disk. Every Lij result is compared with a reference memo filled from a pristine calculator. Sampling of histories over a catalogue of 19 crystals (2-D, multi-site, origin-state, two-Wyckoff-set, low-symmetry, NOSYM and one with a sparse hand-picked jump network) and a pool that includes near-duplicate, doubled, tracer, large-omega2 and cold (rates ~1e-11) inputs.",
    note="Trusted: a pristine calculator evaluated once per (world, range, grid, input) as reference (audited against a brand-new object every 16th reference); h5py/HDF5 on a Python file object behaves like a real file; LAPACK. History-independent numerical errors are invisible by construction (that is C01).",
    technique="deterministic simulation: seeded call/fault/restart histories vs pristine-calculator reference memo on a simulated disk, ddmin + exact replay"),
  "C13": dict(engine="calcsim", design="4.2",
-   text="Twin-mode deterministic simulation: at a seeded point of a calculator's history it is saved to the simulated disk in whatever state the history left it and reloaded; from then on every op is applied to original and copy in lockstep and all observables (Lij tensors, tags, interaction lists, printed form, supercells) are compared pairwise; component round trips (GF calculators incl. stand-alone ones with 9-15 jump types and a disconnected network, star sets, vector stars, Taylor expansions incl. derived, separated and all-zero ones, YAML of value objects) run as further ops on the same disk. Storage faults are the legal ones only (restart, overwrite, append into a shared file, HDF5 group copy into another file, libver, closed source file).",
+   text="Twin-mode deterministic simulation: at a seeded point of a calculator's history it is saved to the simulated disk in whatever state the history left it and reloaded; from then on every op is applied to original and copy in lockstep and all observables (Lij tensors, tags, interaction lists, printed form, supercells, the crystal's symmetry group) are compared pairwise; component round trips (GF calculators incl. stand-alone ones with 9-15 jump types and a disconnected network, star sets, vector stars, Taylor expansions incl. derived, separated and all-zero ones, YAML of value objects) run as further ops on the same disk. Storage faults are the legal ones only (restart, overwrite, append into a shared file, HDF5 group copy into another file, libver, closed source file).",
    note="Trusted: h5py/HDF5/PyYAML; after a rebuild op (regen/regrid) tensors are compared to 1e-8 relative and tags as class partitions because a reloaded crystal iterates its group in another order (DESIGN 4.2). Incomplete writes are outside the property (probe only).",
    technique="deterministic simulation: lockstep original-vs-reloaded twin under seeded histories on a simulated disk, ddmin + exact replay"),
 }
